@@ -25,14 +25,21 @@ import (
 type c11Layout struct {
 	Dir, Ext, Nest, Key, WM, Len string
 	ID                           int
+	Special                      string `json:",omitempty"` // a hand-made layout outside the product
 }
 
 func (l c11Layout) String() string {
+	if l.Special != "" {
+		return "special=" + l.Special
+	}
 	return fmt.Sprintf("dir=%s ext=%s nest=%s key=%s wm=%s len=%s", l.Dir, l.Ext, l.Nest, l.Key, l.WM, l.Len)
 }
 
 // c11Build creates the layout under root and returns the request path of the image file.
 func c11Build(root string, l c11Layout) string {
+	if l.Special != "" {
+		return c11BuildSpecial(root, l)
+	}
 	lens := map[string]int{"<F70": 0xF00, "F90..106F": 0x1000, "=106F": 0x106F, "=1070": 0x1070, "=1071": 0x1071, ">=1070": 0x1070 + 0x790 /* 3 sectors */, "multi": 40 * 2048}
 	n := lens[l.Len]
 	kA := tree.Content(int64(l.ID)*3+1, 16)
@@ -116,7 +123,7 @@ func C11(e *Env) {
 					for _, w := range []string{"none", "enc", "dec"} {
 						for _, ln := range []string{"<F70", "F90..106F", "=106F", "=1070", "=1071", ">=1070", "multi"} {
 							id++
-							layouts = append(layouts, c11Layout{d, x, n, k, w, ln, id})
+							layouts = append(layouts, c11Layout{Dir: d, Ext: x, Nest: n, Key: k, WM: w, Len: ln, ID: id})
 						}
 					}
 				}
@@ -124,6 +131,11 @@ func C11(e *Env) {
 		}
 	}
 	run.Obs("layouts_in_product", len(layouts))
+	for _, sp := range c11Specials {
+		id++
+		layouts = append(layouts, c11Layout{Dir: "special", Ext: "special", Nest: "special", Key: sp, WM: "none", Len: "multi", ID: id, Special: sp})
+	}
+	run.Obs("special_layouts", c11Specials)
 	netEvery := e.Pick(4, 1)
 	p := e.Worker(worker.Config{Root: base, BufSize: 65536}, "c11", false, 0)
 	defer p.Stop()
@@ -307,4 +319,73 @@ func diffWithDC(got, want []byte, dc [][2]int64, base int64) string {
 		}
 	}
 	return ""
+}
+
+var c11Specials = []string{"redkey-is-file", "redkey-sub-is-file", "name-255-bytes", "adjacent-dkey-is-dir+redkey", "redkey-dkey-is-dir", "dir-PS3\u0130SO+redkey", "ext-.\u0130SO+adjacent", "dir-PS3I\u017fO+redkey", "ext-.i\u017fo+adjacent", "dir-PS3ISO-suffix", "dkey-upper-case-ext"}
+
+// c11BuildSpecial: situations in which no key file applies although something with a key-like name
+// is around (the image must then be served as (b) says: here byte-identically), and one in which the
+// adjacent "key" is a directory, so that the REDKEY file is the first key *file*.
+func c11BuildSpecial(root string, l c11Layout) string {
+	n := 40 * 2048
+	kR := tree.Content(int64(l.ID)*3+2, 16)
+	plain := tree.Content(int64(l.ID)+1000, int64(n))
+	regs := []refcrypt.Region{{Start: 0, End: 1}, {Start: 4, End: 9}, {Start: 15, End: 30}}
+	copy(plain, refcrypt.Table(regs))
+	write := func(rel string, b []byte) {
+		must(os.MkdirAll(filepath.Dir(filepath.Join(root, rel)), 0o755))
+		must(os.WriteFile(filepath.Join(root, rel), b, 0o644))
+	}
+	hexKey := []byte(hex.EncodeToString(kR))
+	switch l.Special {
+	case "redkey-is-file":
+		write("PS3ISO/game.iso", plain)
+		write("REDKEY", []byte("not a directory"))
+		return "/PS3ISO/game.iso"
+	case "redkey-sub-is-file":
+		write("PS3ISO/sub/game.iso", plain)
+		write("REDKEY/sub", []byte("not a directory"))
+		return "/PS3ISO/sub/game.iso"
+	case "name-255-bytes":
+		name := string(bytes.Repeat([]byte("n"), 251)) + ".iso"
+		write("PS3ISO/"+name, plain)
+		must(os.MkdirAll(filepath.Join(root, "REDKEY"), 0o755))
+		return "/PS3ISO/" + name
+	case "adjacent-dkey-is-dir+redkey":
+		write("PS3ISO/game.iso", refcrypt.BuildImage(plain, regs, kR))
+		must(os.MkdirAll(filepath.Join(root, "PS3ISO", "game.dkey"), 0o755))
+		write("REDKEY/game.dkey", hexKey)
+		return "/PS3ISO/game.iso"
+	case "redkey-dkey-is-dir":
+		write("PS3ISO/game.iso", plain)
+		must(os.MkdirAll(filepath.Join(root, "REDKEY", "game.dkey"), 0o755))
+		return "/PS3ISO/game.iso"
+	case "dir-PS3\u0130SO+redkey":
+		write("PS3\u0130SO/game.iso", plain)
+		write("REDKEY/game.dkey", hexKey)
+		return "/PS3\u0130SO/game.iso"
+	case "ext-.\u0130SO+adjacent":
+		write("PS3ISO/game.\u0130SO", plain)
+		write("PS3ISO/game.dkey", hexKey)
+		return "/PS3ISO/game.\u0130SO"
+	case "dir-PS3I\u017fO+redkey":
+		write("PS3I\u017fO/game.iso", plain)
+		write("REDKEY/game.dkey", hexKey)
+		return "/PS3I\u017fO/game.iso"
+	case "ext-.i\u017fo+adjacent":
+		write("PS3ISO/game.i\u017fo", plain)
+		write("PS3ISO/game.dkey", hexKey)
+		return "/PS3ISO/game.i\u017fo"
+	case "dir-PS3ISO-suffix":
+		write("PS3ISOX/game.iso", plain)
+		write("PS3ISOX/game.dkey", hexKey)
+		write("XPS3ISO/game.iso", plain)
+		write("REDKEY/game.dkey", hexKey)
+		return "/PS3ISOX/game.iso"
+	case "dkey-upper-case-ext":
+		write("PS3ISO/game.iso", plain)
+		write("PS3ISO/game.DKEY", hexKey)
+		return "/PS3ISO/game.iso"
+	}
+	panic("unknown special " + l.Special)
 }
